@@ -76,6 +76,7 @@ def make_self(I, cls, arity=None, name="self"):
     I.contracts.run_init(I, o, cls, args, {})
     o.fields["_is_fully_reduced"] = z3.Bool(f"fr[{name}]")
     o.fields["_evaluation_failed"] = z3.Bool(f"ef[{name}]")
+    set_memo_arbitrary(I, o)
     return o
 
 
